@@ -33,7 +33,7 @@ def cases(seed, tier):
     for i in range(n):
         out.append({"gen": "disk", "seed": rng.randrange(2 ** 31), "mode": ["circle", "square", "custom", "square", "circle", "custom_collinear"][i % 6],
                     "cotan": (i // 6) % 2 == 1, "corners": (i // 12) % 2 == 0, "max_size": 6 if tier == "quick" else 12})
-    lens = [61, 122, 197, 244, 343, 345, 355, 359] + [rng.randint(3, 400) for _ in range(24 if tier == "quick" else 1500)]
+    lens = [4, 3, 5, 3, 6, 3, 7, 8, 61, 122, 197, 244, 343, 345, 355, 359] + [rng.randint(3, 400) for _ in range(24 if tier == "quick" else 1500)]
     for i, L in enumerate(lens):
         out.append({"gen": "disk", "seed": rng.randrange(2 ** 31), "mode": ["circle", "square", "circle", "circle"][i % 4], "cotan": False, "corners": i % 2 == 0,
                     "max_size": 4, "border_len": L})
